@@ -334,3 +334,31 @@ func Random(w *vt.W, rng *rand.Rand, n, maxPairs int) {
 		Run(w, "random", c, seq, subsets(rng, len(seq)), "")
 	}
 }
+
+// ProbeAddAfterPiles reports what a piler does when Add is called after Piles and Piles is
+// called again.  This is outside the statement of C16 (all Adds precede the first Piles call);
+// the outcome is recorded as an observation, never as a verdict.
+func ProbeAddAfterPiles() string {
+	mk := func(k, s, e int) *pals.Pair {
+		a := &pals.Feature{ID: strconv.Itoa(2*k - 1), From: s, To: e, Loc: contig(1)}
+		b := &pals.Feature{ID: strconv.Itoa(2 * k), From: s, To: e, Loc: contig(2)}
+		fp := &pals.Pair{A: a, B: b, Score: k}
+		a.Pair, b.Pair = fp, fp
+		return fp
+	}
+	p := pals.NewPiler(0)
+	if e := safeAdd(p, mk(1, 0, 2)); e != "" {
+		return "first Add: " + e
+	}
+	if _, e := safePiles(p, nil); e != "" {
+		return "first Piles: " + e
+	}
+	if e := safeAdd(p, mk(2, 5, 7)); e != "" {
+		return "Add after Piles: " + e
+	}
+	piles, e := safePiles(p, nil)
+	if e != "" {
+		return "Piles after a later Add: " + e
+	}
+	return fmt.Sprintf("Piles after a later Add returned %d piles", len(piles))
+}
